@@ -153,7 +153,19 @@ def run(fx, chk, tier):
                 # flush moves no byte of the output and no position
                 direct.setdefault(fid, set()).add((t_["callee"].get("path") or "").split("::")[-1])
 
-    def is_encoder(fid):
+    def is_encoder(fid, depth=0):
+        if depth < 3 and not _is_encoder0(fid):
+            # a private helper of encoders (`Matrix::write`, a shared field writer): every caller is an encoder
+            cs = [c for c in cg.callers_of(fid) if c != fid]
+            return bool(cs) and all(is_encoder(c, depth + 1) for c in cs)
+        return _is_encoder0(fid)
+
+    def _is_encoder0(fid):
+        if "::{closure" in fid and fid.split("::{closure")[0] in fx.fns:
+            # a closure is part of the function that defines it (a loop body handed to try_for_each, a `then` continuation)
+            return is_encoder(fid.split("::{closure")[0])
+        if fid not in fx.fns:
+            return False
         fn = fx.fns[fid]
         ts = short((fn.get("impl") or {}).get("trait") or "")
         return ts.startswith("WriteBox<") or ts.startswith("WriteDesc<") or fid.endswith("BoxHeader::write") or (fn["kind"] == "Fn" and fn["name"].startswith("write_")) or fn["name"] == "write" and short((fn.get("impl") or {}).get("self_ty", "")) == "NalUnit"
